@@ -68,14 +68,14 @@ Definition url_verdict (fx : fixes) (c : ucase) : nat :=
           result_eqb (parse nf fx raw k env) out1
           && match out1 with
              | inr u => Bool.eqb (url_valid fx u) valid1
-                        && str_eqb (format u) f1
+                        && str_eqb (format fx u) f1
                         && result_eqb (parse nf fx f1 k env) o2
              | inl _ => true
              end
           && nz_ok nz in
       (if corr then 0 else 1) + (if check_C38 out1 valid1 o2 then 0 else 2)
   | UV u valid => if Bool.eqb (url_valid fx u) valid then 0 else 1
-  | UF u s => if str_eqb (format u) s then 0 else 1
+  | UF u s => if str_eqb (format fx u) s then 0 else 1
   end%nat.
 
 Fixpoint url_failures_fx (fx : fixes) (i : nat) (cs : list ucase) : list (nat * nat) :=
